@@ -3,9 +3,12 @@
    All theorems are [G]: every size, every net, any point type A and knot type Kn; nothing is bounded.
    The model (Model/Layout.v) describes construct_volume('u'|'v') and sweep_vector(curve) in their repaired
    form (fixes/C13-construct-volume-uv.diff, fixes/C13-sweep-vector-curve-degree.diff). *)
-From Coq Require Import List Arith Bool Lia.
-From NV Require Import Model.Common Model.Layout Proofs.LayoutP Proofs.LayoutR Proofs.LayoutC.
+From Coq Require Import List Arith Bool Lia Reals.
+From NV Require Import Model.Common Model.Layout Proofs.LayoutP Proofs.LayoutR Proofs.LayoutC Proofs.LayoutT.
+(* not used by the statements: makes the harness comparison helpers part of this file's build closure *)
+From NV Require Run.LayoutH.
 Import ListNotations.
+Open Scope nat_scope.
 
 (* [G] the surface index map (u,v) |-> v + size_v*u is a bijection from the grid onto [0, su*sv), and
    enumerating u outer / v inner lists the flat positions in increasing order *)
@@ -137,6 +140,17 @@ Proof.
   - apply flip_involutive.
 Qed.
 Print Assumptions C13_transpose.
+
+(* [G] transposition on evaluated points: for ANY coefficient families a_i (u direction) and b_j (v direction) - in particular
+   the basis function values N_{i,pu}(u) and N_{j,pv}(v), whose degrees and knot vectors C13_transpose shows to be exchanged -
+   the tensor-product sum  sum_i sum_j a_i b_j P(i,j)  over the original net equals the sum over the transposed net with the two
+   families exchanged, coordinate by coordinate (coord : A -> R):  S^T(v,u) = S(u,v).  (real-number axioms only) *)
+Theorem C13_transpose_evaluates_swapped : forall (A Kn : Type) (d : A) (coord : A -> R) (s : surf A Kn) (a b : nat -> R),
+  0 < s_sv s ->
+  let t := transpose d s in
+  tp_eval d coord (s_su t) (s_sv t) b a (s_P t) = tp_eval d coord (s_su s) (s_sv s) a b (s_P s).
+Proof. intros A Kn d coord s a b H. apply transpose_evaluates_swapped. exact H. Qed.
+Print Assumptions C13_transpose_evaluates_swapped.
 
 (* [G] curve and surface extraction address the same point for the same (u,v,w) *)
 Theorem C13_extract_addresses : forall (A Kn : Type) (d : A),
